@@ -182,7 +182,10 @@ def monitors(case, ji, job, real, L):
         if sa:
             if rs % sa:
                 fail("C09", "%s = 0x%x is not a multiple of segment_start_align 0x%x" % (N.rom_start(n), rs, sa))
-            if not explicit and vs % sa:
+            a_nat = secA["align"] if secA is not None and secA["size"] > 0 else 1
+            # (the default-placed start is then rounded to the contents' own alignment: both hold when one
+            #  alignment divides the other - always for the powers of two the property quantifies over)
+            if not explicit and (sa % a_nat == 0 or a_nat % sa == 0) and vs % sa:
                 fail("C09", "%s = 0x%x is not a multiple of segment_start_align 0x%x" % (N.vram_start(n), vs, sa))
         if ea:
             if re % ea:
